@@ -319,7 +319,64 @@ def check_gssvx(ev):
     return res
 
 
-CHECKERS = {"gssv": check_gssv, "gstrf": check_gstrf, "gssvx": check_gssvx}
+SAFE = {"d": (Fr(2) ** -1022, Fr(2) ** -52), "z": (Fr(2) ** -1022, Fr(2) ** -52), "s": (Fr(2) ** -126, Fr(2) ** -23), "c": (Fr(2) ** -126, Fr(2) ** -23)}
+
+
+def close(a, b, ulps, eps):
+    return abs(a - b) <= ulps * eps * max(abs(a), abs(b))
+
+
+def check_equ(ev):
+    """C11 rounding slice: the defining properties of the scale factors, ratios and the scaled entries, with a
+    tolerance of a few units in the last place (entries with arbitrary mantissas)"""
+    ty = ev["ty"]; cplx = CPLX[ty]; eps = EPS[ty]
+    sml, prec = SAFE[ty]; big = 1 / sml
+    m, n = ev["m"], ev["n"]
+    A = dense_from_triplets(ev["A0"], m, n, cplx)
+    mag = [[cabs1(A[i][j]) for j in range(n)] for i in range(m)]
+    r0 = [max(mag[i]) if n else Fr(0) for i in range(m)]
+    bad = []
+    zr = [i for i in range(m) if r0[i] == 0]
+    if zr:
+        return {"bad": [] if ev["info"] == zr[0] + 1 else ["C11.info"]}
+    clamp = lambda x: min(max(x, sml), big)
+    R = [tok(t) for t in ev["R"]]
+    C = [tok(t) for t in ev["C"]]
+    u = 4
+    if any(not close(R[i], 1 / clamp(r0[i]), u, eps) or R[i] <= 0 for i in range(m)):
+        bad.append("C11.row_factors")
+    c0 = [max(mag[i][j] * R[i] for i in range(m)) for j in range(n)]
+    zc = [j for j in range(n) if c0[j] == 0]
+    if zc:
+        return {"bad": bad + ([] if ev["info"] == m + zc[0] + 1 else ["C11.info"])}
+    if ev["info"] != 0:
+        return {"bad": bad + ["C11.info"]}
+    if any(not close(C[j], 1 / clamp(c0[j]), u, eps) or C[j] <= 0 for j in range(n)):
+        bad.append("C11.col_factors")
+    rowcnd = max(min([big] + r0), sml) / min(max(r0), big)
+    colcnd = max(min([big] + c0), sml) / min(max(c0), big)
+    if not (close(tok(ev["rowcnd"]), rowcnd, u, eps) and close(tok(ev["colcnd"]), colcnd, 2 * u, eps) and tok(ev["amax"]) == max(r0)):
+        bad.append("C11.ratios")
+    small = sml / prec
+    rowok = tok(ev["rowcnd"]) >= Fr(1, 10) and small <= max(r0) <= 1 / small
+    colok = tok(ev["colcnd"]) >= Fr(1, 10)
+    q = ("N" if colok else "C") if rowok else ("R" if colok else "B")
+    if ev["equed"] != q:
+        bad.append("C11.threshold_rule")
+    else:
+        for (i, j, t0), t1 in zip(ev["A0"], ev["A1v"]):
+            f = (R[i] if q in "RB" else 1) * (C[j] if q in "CB" else 1)
+            v0 = val(t0, cplx); v1 = val(t1, cplx)
+            for a, b in zip(v0, v1):
+                if not close(b, a * f, 4, eps):
+                    bad.append("C11.scaled_entries"); break
+            else:
+                continue
+            break
+    return {"bad": bad}
+
+
+CHECKERS = {"gssv": check_gssv, "gstrf": check_gstrf, "gssvx": check_gssvx, "equ": check_equ}
 
 
 def check_line(ev):
